@@ -95,7 +95,7 @@ def gen_program(rng, name, kinds_pool, nregs=None, nsteps=None, ops=None, with_c
     def emit(l, e=None): lines.append(l); exp.append(e)
     for r, k in zip(regs, kinds): emit("new %s %s" % (r, k), "ok"); sh[r] = Shadow(k)
     nsteps = nsteps or rng.randint(15, 90)
-    ops = ops or ["add"] * 6 + ["addw"] * 5 + ["addbin", "merge", "merge", "copy", "clear", "reweight", "obs", "obs", "rank", "rank", "burst", "codec", "foreachstop", "binsch", "badrew"]
+    ops = ops or ["add"] * 6 + ["addw"] * 5 + ["addbin", "merge", "merge", "copy", "clear", "reweight", "obs", "obs", "rank", "rank", "burst", "codec", "foreachstop", "binsch", "badrew", "proto"]
     nrew = 0; nb = 0
     def obs(r): emit("obs " + r, sh[r].obsline())
     def ranks(r):
@@ -114,7 +114,9 @@ def gen_program(rng, name, kinds_pool, nregs=None, nsteps=None, ops=None, with_c
         if op == "add":
             i = rng.choice(uni); emit("add %s %d" % (r, i), "ok"); sh[r].add(i, Fraction(1))
         elif op == "addw":
-            i = rng.choice(uni); w = weight(rng); emit("addw %s %d %s" % (r, i, wh(w)), "ok"); sh[r].add(i, w)
+            i = rng.choice(uni); w = weight(rng) if rng.random() < 0.9 else Fraction(0)          # a zero weight is accepted and changes nothing (not even the index range)
+            emit("addw %s %d %s" % (r, i, wh(w)), "ok"); sh[r].add(i, w)
+            if w == 0: obs(r)
         elif op == "addbin":
             i = rng.choice(uni); w = rng.choice([Fraction(0), weight(rng), weight(rng)])
             emit("addbin %s %d %s" % (r, i, wh(w)), "ok"); sh[r].add(i, w)
@@ -145,6 +147,10 @@ def gen_program(rng, name, kinds_pool, nregs=None, nsteps=None, ops=None, with_c
             n = rng.randint(1, 4); emit("foreachstop %s %d" % (r, n), "calls=%d" % min(n, len(sh[r].m)))
         elif op == "binsch":
             emit("binsch " + r, "bins=" + sh[r].obsline().split("bins=")[1])
+        elif op == "proto" and with_codec:          # through the protobuf message: the source's ToProto, merged by the target's own MergeWithProto
+            r2 = rng.choice([x for x in regs if x != r]); nb += 1
+            emit("toproto q%d %s" % (nb, r), "ok"); obs(r)
+            emit("fromproto %s q%d" % (r2, nb), "ok"); sh[r2].merge(sh[r]); obs(r2)
         elif op == "codec" and with_codec:
             r2 = rng.choice([x for x in regs if x != r]); nb += 1; b = "b%d" % nb
             pre = "".join("%02x" % rng.getrandbits(8) for _ in range(rng.choice([0, 0, 3])))
